@@ -27,6 +27,8 @@ func main() {
 		"events":  driveEvents,
 		"faults":  driveFaults,
 		"updates": driveUpdates,
+		// exploratory, not part of any check
+		"stallprobe": driveStallProbe,
 	})
 }
 
@@ -67,7 +69,8 @@ func supervise() int {
 	st := hx.Stats{
 		Evaluations: 1, DistinctNontrivial: 1,
 		Rule:    "the driver process hosting the real Adaptation crashed inside containerd/nri",
-		Samples: []interface{}{},
+		Samples: []interface{}{}, Shards: []hx.ShardInfo{}, Distribution: map[string]int{"crash.inside_nri": 1},
+		HarnessErrors: []string{},
 		ImplFailures: []hx.ImplFailure{{Stream: driver,
 			What: "the process hosting the Adaptation crashed inside containerd/nri: " + head,
 			Case: map[string]interface{}{"driver": driver, "args": os.Args[1:], "trace": trace}}},
